@@ -38,12 +38,13 @@ func specHex4(s string, o int) rune {
 // val, finished groups in candidates.
 //@ define hexUp(b) = (b >= 48 && b <= 57) || (b >= 65 && b <= 70)
 //@ define surrogate(v) = v >= 55296 && v <= 57343
+//@ define hex4(s, o) = mathint(((specHexUp(s[o])*16 + specHexUp(s[o+1]))*16 + specHexUp(s[o+2]))*16 + specHexUp(s[o+3]))
 //@ func ToUnicode
 //@ loop 2 invariant [C16.uni.digits] mathint(good && 3 <= len(part) && rangeidx <= len(part) - 3 && (forall k :: 0 <= k && k < rangeidx ==> hexUp(part[k+3])))
-//@ loop 2 invariant [C16.uni.groups] mathint(len(candidates)*4 <= rangeidx && rangeidx <= len(candidates)*4 + 3 && (forall j :: 0 <= j && j < len(candidates) ==> candidates[j] == specHex4(part, 3 + 4*j) && !surrogate(candidates[j])))
+//@ loop 2 invariant [C16.uni.groups] mathint(len(candidates)*4 <= rangeidx && rangeidx <= len(candidates)*4 + 3 && (forall j :: 0 <= j && j < len(candidates) ==> candidates[j] == hex4(part, 3 + 4*j) && !surrogate(candidates[j])))
 //@ loop 2 invariant [C16.uni.partial] mathint((rangeidx == len(candidates)*4 ==> val == 0) && (rangeidx == len(candidates)*4 + 1 ==> val == specHexUp(part[rangeidx+2])) && (rangeidx == len(candidates)*4 + 2 ==> val == specHexUp(part[rangeidx+1])*16 + specHexUp(part[rangeidx+2])) && (rangeidx == len(candidates)*4 + 3 ==> val == (specHexUp(part[rangeidx])*16 + specHexUp(part[rangeidx+1]))*16 + specHexUp(part[rangeidx+2])))
-//@ loop 2 exit-when [C16.uni.accept] mathint(good ==> len(candidates)*4 + 3 >= len(part) - 3 && (forall k :: 0 <= k && k < len(part) - 3 ==> hexUp(part[k+3])) && (forall j :: 0 <= j && j < len(candidates) ==> candidates[j] == specHex4(part, 3 + 4*j)))
-//@ loop 2 exit-when [C16.uni.reject] !good ==> !hexUp(part[prev(rangeidx)+3]) || (prev(rangeidx) == prev(len(candidates))*4 + 3 && surrogate(specHex4(part, prev(rangeidx))))
+//@ loop 2 exit-when [C16.uni.accept] mathint(good ==> len(candidates)*4 + 3 >= len(part) - 3 && (forall k :: 0 <= k && k < len(part) - 3 ==> hexUp(part[k+3])) && (forall j :: 0 <= j && j < len(candidates) ==> candidates[j] == hex4(part, 3 + 4*j)))
+//@ loop 2 exit-when [C16.uni.reject] mathint(!good ==> !hexUp(part[prev(rangeidx)+3]) || (prev(rangeidx) == prev(len(candidates))*4 + 3 && surrogate(hex4(part, prev(rangeidx)))))
 // "u" components (step 3, second form): "u" followed by four to six upper-case
 // hexadecimal digits.  Loop 3 of ToUnicode runs over part[1:]; val is the
 // number written by the digits read so far.
